@@ -265,6 +265,20 @@ static void run(void) {
             }
         }
     }
+    /* paths of 50 000 - 180 000 cells (res 13-15): the far end of the quantifier, where products of the step number and the
+     * distance pass 2^31 */
+    for (int res = 13; res <= 15; res++)
+        for (int i = 0; i < VF_T(2, 10); i++) {
+            H3Index a = vf_rand_cell(&r, res);
+            int L = 47000 + (int)vf_below(&r, 130000);
+            if (!VF_MINE(idx++)) continue;
+            switch (i % 3) {
+                case 0: case_long(a, L, (int)vf_below(&r, (uint64_t)L)); break;
+                case 1: case_long(a, -(int)vf_below(&r, (uint64_t)L), L); break;
+                default: case_long(a, L, -L / 3);
+            }
+            vf_add("long.very_long_cases", 1);
+        }
     vf_buf_free(d);
     /* the same judgement with the API calls made under the three directed rounding modes */
     {
